@@ -1126,6 +1126,7 @@ def run_core_history(ad, leaf, by_key, done):
     root = by_key[(ini, "[]")]
     k = 0
     out = []
+    paths = set()
     try:
         w = ad.build(root)
         for k in range(len(hist) + 1):
@@ -1136,7 +1137,9 @@ def run_core_history(ad, leaf, by_key, done):
                 continue
             done.add((ini, rp.skey(hist[:k])))
             d = ad.compare(w, st)
-            if d:
+            path = re.sub(r"\[\d+\]", "", (d or "").split(":")[0])
+            if d and path not in paths:   # a difference that persists along the history is reported where it first appears
+                paths.add(path)
                 out.append({"first_difference": d, "ini": leaf["ini"], "behaviour": hist[:k], "action": hist[k - 1] if k else {"n": "Init"},
                             "expected": st["obs"]})
     except tlc.MachineryError:
